@@ -83,7 +83,7 @@ def _check_zone(ctx, sub, V, path, z, rnd, label, per_zone):
     # UTC -> zone, batch first; any mismatch is re-asked alone (history effects belong to C13)
     ins = [fmt_t(t) for t in ts]
     try:
-        out, _ = run_lines(ctx.build, "dconv", ["--zone", path, "-f", "%FT%T"], ins)
+        out, _ = run_lines(ctx.build, "dconv", ["--zone", path, "-f", "%FT%T"], ins, timeout=10)
     except BatchError as e:
         V.add("batch:" + label, {"zone": path, "kind": "batch"}, detail=str(e), actual=e.result.brief())
         return
@@ -95,7 +95,7 @@ def _check_zone(ctx, sub, V, path, z, rnd, label, per_zone):
         if (t in trset or t - 1 in trset or t + 1 in trset) or idx >= 255 or idx == len(z.trans) - 1:
             sub.nt((path, t))
         if o != x:
-            r = run_args(ctx.build, "dconv", ["--zone", path, "-f", "%FT%T", i])
+            r = run_args(ctx.build, "dconv", ["--zone", path, "-f", "%FT%T", i], timeout=6)
             alone = (r.lines() or [""])[0]
             if alone != x:
                 tag = "%s:local" % label
@@ -116,7 +116,7 @@ def _check_zone(ctx, sub, V, path, z, rnd, label, per_zone):
             loc.append((l, sorted(set(pre))))
     for l, pre in loc:
         i = fmt_t(l)
-        r = run_args(ctx.build, "dconv", ["--from-zone", path, "-f", "%FT%T", i])
+        r = run_args(ctx.build, "dconv", ["--from-zone", path, "-f", "%FT%T", i], timeout=6)
         got = (r.lines() or [""])[0]
         sub.evaluations += 1
         if got not in [fmt_t(u) for u in pre]:
@@ -157,7 +157,7 @@ def _dzone(ctx, sub, V, path, z, rnd, label):
         if not (TMIN <= tr[i - 1] and tr[i + 1] <= TMAX) or t == tr[i]:
             continue
         for opt, tt, io in (("--next", tr[i + 1], i + 1), ("--prev", tr[i], i)):
-            r = run_args(ctx.build, "dzone", [path, fmt_t(t), opt])
+            r = run_args(ctx.build, "dzone", [path, fmt_t(t), opt], timeout=6)
             sub.evaluations += 1
             line = (r.lines() or [""])[0]
             ob, oa = z.offs[z.tidx[io - 1]], z.offs[z.tidx[io]]
